@@ -171,4 +171,15 @@ theorem accepted_F_named (fs : List (List Char)) (h : acceptFields .F fs = true)
 example : Field.accept .optIdGfa2 ['*'] = true ∧ Field.accept .idGfa2 ['*'] = false ∧ Field.accept .idGfa2 ['*', '*'] = true := by
   decide
 
+/-- an accepted `f` field is a numeral Python reads as a finite double (below 2^1024 - 2^970) -/
+theorem f_accept_finite (s : List Char) (h : Field.accept .f s = true) : Field.floatFinite s = true := by
+  simp only [Field.accept, Field.sideOk, Bool.and_eq_true] at h
+  exact h.2
+
+/-- the boundary: the largest double, the last decimal numeral that still rounds to it, the first that does not -/
+example : Field.accept .f "1.7976931348623157e308".toList = true ∧ Field.accept .f "1.797693134862315807e308".toList = true ∧
+    Field.accept .f "1.797693134862315808e308".toList = false ∧ Field.accept .f "1e400".toList = false ∧
+    Field.accept .f "0e999".toList = true ∧ Field.accept .f "1e-400".toList = true := by
+  decide +kernel
+
 end Gfa.C04
